@@ -213,15 +213,22 @@ class Operation(ABC):
             backed_grad = self.grad_post_process_fn(backed_grad, var.shape)
             assert backed_grad.shape == var.shape, (backed_grad.shape, var.shape)
             if var._grad is None:
-                backed_grad = (
-                    np.copy(backed_grad)
-                    # `backed_grad` is view of grad; we want to be able to
-                    # augment tmp-grad inplace later
-                    if backed_grad.base is not None or (backed_grad is grad)
-                    else backed_grad
-                )
                 if backed_grad.dtype != var.dtype:
                     backed_grad = backed_grad.astype(var.dtype, copy=False)
+
+                if (
+                    # `backed_grad` is view of grad; we want to be able to
+                    # augment tmp-grad inplace later
+                    backed_grad.base is not None
+                    or (backed_grad is grad)
+                    # The gradient must share the memory layout of its tensor so
+                    # that each view of the tensor has a corresponding view of
+                    # the gradient
+                    or backed_grad.strides != var.data.strides
+                ):
+                    tmp = np.empty_like(var.data)
+                    tmp[...] = backed_grad
+                    backed_grad = tmp
 
                 var._grad = backed_grad
             else:
